@@ -86,19 +86,20 @@ struct Rng {
 };
 
 /* ---- threads ------------------------------------------------------------------------------------------------ */
-enum St { RUN, MUTEX, COND, FUTEX, JOIN, SEM, FIN };
-const char* const st_names[] = {"RUN", "MUTEX", "COND", "FUTEX", "JOIN", "SEM", "FIN"};
+enum St { RUN, MUTEX, COND, FUTEX, JOIN, SEM, ONCE, FIN };
+const char* const st_names[] = {"RUN", "MUTEX", "COND", "FUTEX", "JOIN", "SEM", "ONCE", "FIN"};
 enum Wake { W_NORMAL = 0, W_SPURIOUS = 1, W_TIMEOUT = 2, W_DISABLED = 3 };
 enum Kind {
   K_YIELD = 1, K_SCHED_YIELD, K_CREATE, K_JOIN, K_LOCK, K_TRYLOCK, K_UNLOCK, K_CWAIT, K_CSPUR, K_SIGNAL, K_BCAST,
-  K_FWAIT, K_FWAKE, K_SEMWAIT, K_SEMPOST, K_FIN, K_FEARLY
+  K_FWAIT, K_FWAKE, K_SEMWAIT, K_SEMPOST, K_FIN, K_FEARLY, K_ONCE
 };
 const char* const kind_names[] = {"?",      "yield",  "sched_yield", "create", "join",  "lock",    "trylock",
                                   "unlock", "cwait",  "cspur",       "signal", "bcast", "fwait",   "fwake",
-                                  "semwait", "sempost", "fin",        "fearly"};
+                                  "semwait", "sempost", "fin",        "fearly", "once"};
 
 struct Th {
   int id = 0;
+  unsigned session = 0; /* detsched_enable() generation this thread belongs to */
   std::atomic<int> go{0}; /* real parking word */
   St st           = RUN;
   const void* obj = nullptr; /* what the thread is blocked on */
@@ -128,6 +129,7 @@ struct State {
   std::vector<Th*> live;
   std::vector<Th*> cand;
   std::unordered_map<const void*, MInfo> mtx;
+  std::unordered_map<const void*, Th*> once; /* pthread_once in progress -> thread running the routine */
   std::unordered_map<const void*, int> objids; /* trace only */
   Rng sched, fault;
   int strategy = DETSCHED_UNIFORM;
@@ -151,6 +153,7 @@ struct State {
 
 State* S = nullptr;
 std::atomic<int> g_enabled{0};
+std::atomic<unsigned> g_session{0};
 void (*g_hook)(int) = nullptr;
 thread_local Th* me = nullptr;
 thread_local int in_shim = 0;
@@ -161,7 +164,8 @@ struct Guard {
 
 inline bool active()
 {
-  return g_enabled.load(std::memory_order_relaxed) && me != nullptr && in_shim == 0;
+  return g_enabled.load(std::memory_order_relaxed) && me != nullptr && in_shim == 0 &&
+         me->session == g_session.load(std::memory_order_relaxed);
 }
 
 void real_wait(Th* t)
@@ -690,8 +694,9 @@ void detsched_enable(uint64_t seed, int strategy, const struct detsched_params* 
       sched_setaffinity(0, sizeof set, &set); /* inherited by the threads created from now on */
     }
   }
-  Th* t0     = new Th;
-  t0->id     = 0;
+  Th* t0      = new Th;
+  t0->id      = 0;
+  t0->session = g_session.load() + 1;
   t0->real   = pthread_self();
   t0->prio   = 1 + (long)setup.below(1000000);
   s->all.push_back(t0);
@@ -699,6 +704,7 @@ void detsched_enable(uint64_t seed, int strategy, const struct detsched_params* 
   s->last = t0;
   S       = s;
   me      = t0;
+  g_session.fetch_add(1);
   g_enabled.store(1);
 }
 
@@ -851,6 +857,7 @@ int pthread_create(pthread_t* th, const pthread_attr_t* a, void* (*fn)(void*), v
   Guard g;
   Th* t   = new Th;
   t->id   = (int)S->all.size();
+  t->session = g_session.load();
   t->fn   = fn;
   t->arg  = arg;
   t->prio = 1 + (long)S->sched.below(1000000);
@@ -935,6 +942,37 @@ int sched_yield(void) noexcept
     me->prio = --S->lowp; /* PCT's treatment of yield loops: the spinner drops below everybody */
   yield_point(K_SCHED_YIELD, nullptr, true);
   return 0;
+}
+
+/* pthread_once: glibc waits on a futex through an inlined system call, which would block the token holder for real
+ * when the initialising thread was descheduled inside its routine: the wait is simulated instead */
+int pthread_once(pthread_once_t* o, void (*fn)(void))
+{
+  auto real = REAL(pthread_once);
+  if (not active())
+    return real(o, fn);
+  yield_point(K_ONCE, o);
+  for (;;) {
+    bool busy;
+    {
+      Guard g;
+      auto it = S->once.find(o);
+      busy    = it != S->once.end() && it->second != me;
+      if (not busy && it == S->once.end())
+        S->once[o] = me;
+    }
+    if (not busy)
+      break;
+    if (block(ONCE, o, false) == W_DISABLED)
+      return real(o, fn);
+  }
+  int r = real(o, fn); /* runs fn (or returns at once when already done); fn may contain scheduling points */
+  Guard g;
+  S->once.erase(o);
+  for (Th* t : S->live)
+    if (t->st == ONCE && t->obj == o)
+      wake_thread(t, W_NORMAL);
+  return r;
 }
 
 /* ---- mutexes ----------------------------------------------------------------------------------------------- */
